@@ -149,6 +149,11 @@ fn baseline(b: u64) -> Plan {
         "stats_dir_gone" => 2_500 + rng.below(3_000),
         _ => 270,
     };
+    if rng.chance(1, 4) {
+        // the wall clock is stepped while the server runs (exit must not wait for a wall-clock instant)
+        let span = plan.world.horizon_ms * 1000;
+        plan.step(25_000 + rng.below(span.saturating_sub(25_000).max(1)), Action::WallStepMs(*rng.pick(&[-3_600_000i64, -61_000, -1000, 1000, 61_000, 86_400_000])));
+    }
     plan.server = Some(s);
     plan
 }
